@@ -1,23 +1,61 @@
-(* Several scripts on one VM: the SYSCALL handler that loads script k on top of the executing one, the way the node performs
-   contract calls (k odd: vm.LoadScriptWithHash - own id, exactly one result, own stack; k even: vm.LoadScriptWithFlags - the
-   entry script's id, all results, stack shared when empty), and the runner for an arbitrary handler. Definitions only. *)
+(* Several scripts on one VM: the SYSCALL handler that pushes a new context through each of the VM's entry points, the way
+   the node performs contract calls, and the runner for an arbitrary handler.  Definitions only.
+
+   SYSCALL id (4 bytes LE):  k = id mod 256          script number (1-based), ignored by mode 6
+                             mode = (id / 256) mod 16
+                             na = (id / 4096) mod 16  number of arguments moved (mode 5)
+                             off = id / 65536         offset (modes 4 and 6)
+     mode 0  k odd: vm.LoadScriptWithHash (own id, exactly one result, own stack); k even: vm.LoadScriptWithFlags
+     mode 1  vm.LoadScript            2  vm.LoadDynamicScript (used only with callees that return exactly one value)
+     mode 3  vm.LoadNEFMethod without _initialize        7  the same with the callbacks natives pass (no effect here)
+     mode 4  vm.LoadNEFMethod with _initialize at [off]: the method's context, then Call(off) on top of it
+     mode 5  the contract call: na arguments are popped from the caller's stack, LoadNEFMethod, the arguments are pushed
+             onto the callee's stack in the same order
+     mode 6  vm.Call(off): another context of the executing script
+   Every one of them checks the invocation stack size BEFORE pushing ([load_checked], [call]). *)
 From NG Require Import VM.Model.
 Open Scope Z_scope.
 
-Definition sys_load (scripts : list (list Z)) : syshandler := fun op p s =>
-  match op with
-  | SYSCALL =>
-      let k := from_le p in
-      if (k <? 1) || (zlen scripts <? k) then None
-      else match nth_error scripts (Z.to_nat (k - 1)) with
-           | Some prog =>
-               if MaxInvocationStackSize <=? depth s then None
-               else if Z.odd k then Some (load_script s prog (Z.to_N (k + 1)) 1)
-               else Some (load_script s prog 1%N (-1))
-           | None => None
-           end
-  | _ => None
+Definition load_checked (s : state) (prog : list Z) (sid : N) (rv : Z) : option state :=
+  if MaxInvocationStackSize <=? depth s then None else Some (load_script s prog sid rv).
+
+(* top first *)
+Fixpoint pop_n (n : nat) (d : dstate) : option (list item * dstate) :=
+  match n with
+  | O => Some ([], d)
+  | S n' => do (it, d1) <- pop d; do (its, d2) <- pop_n n' d1; Some (it :: its, d2)
   end.
+Definition push_all (its : list item) (d : dstate) : dstate := fold_right push d its.
+
+Definition load_mode (check : bool) (scripts : list (list Z)) (id : Z) (s : state) : option state :=
+  let k := id mod 256 in
+  let mode := (id / 256) mod 16 in
+  let na := (id / 4096) mod 16 in
+  let off := id / 65536 in
+  let load s prog sid rv := if check then load_checked s prog sid rv else Some (load_script s prog sid rv) in
+  if mode =? 6 then call s off
+  else if (k <? 1) || (zlen scripts <? k) then None
+  else match nth_error scripts (Z.to_nat (k - 1)) with
+       | None => None
+       | Some prog =>
+           let sid := Z.to_N (k + 1) in
+           if mode =? 0 then (if Z.odd k then load s prog sid 1 else load s prog 1%N (-1))
+           else if (mode =? 1) || (mode =? 2) then load s prog 1%N (-1)
+           else if (mode =? 3) || (mode =? 7) then load s prog sid 1
+           else if mode =? 4 then (do s1 <- load s prog sid 1; call s1 off)
+           else if mode =? 5 then
+             (do (its, d) <- pop_n (Z.to_nat na) (view s);
+              do s1 <- load (unview s d) prog sid 1;
+              Some (unview s1 (push_all its (view s1))))
+           else None
+       end.
+
+Definition sys_load (scripts : list (list Z)) : syshandler := fun op p s =>
+  match op with SYSCALL => load_mode true scripts (from_le p) s | _ => None end.
+
+(* the same handler with loaders that do not check the invocation stack size (for the refutation) *)
+Definition sys_load_unchecked (scripts : list (list Z)) : syshandler := fun op p s =>
+  match op with SYSCALL => load_mode false scripts (from_le p) s | _ => None end.
 
 Fixpoint run_with (sys : syshandler) (fuel : nat) (s : state) : result :=
   match fuel with
